@@ -238,6 +238,18 @@ func genCase(c int64) caseFile {
 				nonce[l]++
 				kind = fmt.Sprintf("precompile-%x-len%d", to.Bytes()[19], n)
 			case 2: // contracts
+				if rng.Float64() < 0.12 {
+					// value the sender cannot pay, on a creation or on a call to a contract: invalid, nonce must not move
+					code := evmdrive.Deploy(evmdrive.CounterRuntime)
+					var to *common.Address
+					kind = "create-value-unaffordable"
+					if len(contracts) > 0 && rng.Intn(2) == 0 {
+						a := contracts[rng.Intn(len(contracts))]
+						to, code, kind = &a, nil, "call-value-unaffordable"
+					}
+					tx = evmdrive.SignedTx(k, nonce[l], to, 1+int64(rng.Intn(100)), 3000000, 0, code)
+					break
+				}
 				if len(contracts) == 0 || rng.Float64() < 0.3 {
 					rts := [][]byte{evmdrive.CounterRuntime, evmdrive.LoggerRuntime, evmdrive.StoreRuntime, evmdrive.SuicideRuntime, evmdrive.RevertRuntime}
 					code := evmdrive.Deploy(rts[rng.Intn(len(rts))])
@@ -601,5 +613,6 @@ func main() {
 	run.Require("invalid_txs", 200)
 	run.Require("twin_blocks_compared", 100)
 	run.Require("tx_kinds", 40)
+	run.Require("tx_create-value-unaffordable", 5)
 	os.Exit(run.Finish())
 }
